@@ -3,7 +3,7 @@
 Every case is ONE generation of tax_report_jp.ods in a fresh interpreter (harness/l5_worker.py) on a
 generated multi-asset input whose years are sparse, unordered across the three tables, disposal-only or
 contain only fee-less transfers.  The .ods read back is
-  (a) compared cell by cell with the report the Coq model (Model/JpReport.v, driver cmd 80) produces from the
+  (a) compared cell by cell with the report the Coq model (Model/JpReport.v + Model/JpLegend.v, driver cmd 84: Legend sheet first) produces from the
       same transactions (static template cells included, so extra / shifted / missing rows show), and
   (b) judged against the property text by the independent oracle below (no use of the model, geometry taken
       from the template's own labels), which is what yields the concrete failing input.
@@ -164,6 +164,8 @@ def gen_case(rng, k=0):
         assets.append(gen_asset(rng, names[j], ys, ne, nh, mixed))
     m = {"country": "jp", "lang": "en" if k % 2 == 0 else "kl", "env": None, "sched": [[1970, "fifo"]], "from": None, "to": None,
          "allow_neg": False, "exchanges": [f"E{i}" for i in range(ne)], "holders": [f"H{i}" for i in range(nh)], "assets": assets}
+    if k % 10 == 3:
+        m["sched"] = [[2015, "fifo"]]          # one-entry schedule not keyed 1970: the legend shows the method by value (F10 repaired)
     if not mixed:
         days = sorted({hist.local_day(r["ts"]) for c in assets for r in c["ins"] + c["outs"] + c["intras"]})
         w = rng.below(20)
@@ -216,7 +218,7 @@ def correspond(multi, res, mres):
     out = []
     if not impl or impl[0]["name"] != PREFIX[multi["lang"]] + "Legend":
         out.append(f"first sheet is {impl[0]['name'] if impl else None}, expected the legend")
-    impl = impl[1:]
+    # the model (cmd 84: Model/JpLegend.v jp_report_full) describes the whole file, the Legend sheet first
     if [s["name"] for s in impl] != [s["name"] for s in model]:
         out.append(f"sheets {[s['name'] for s in impl]}, model {[s['name'] for s in model]}")
     for ms in model:
@@ -282,6 +284,39 @@ def expected_rows(multi, case):
         if fee > 0:
             rows.append((float(mo), float(d), "Transfer", "FEE", None, None, float(Decimal(fee).scaleb(-11)), float(dmul(fee, r.get("spot") or 0)), 0.0))
     return out
+
+
+def legend_oracle(multi, res):
+    """the Legend (first sheet) states the accounting method(s) and the date filters actually used: found through the
+    template's own labels in column A, values read from column B"""
+    v = []
+    pre = PREFIX[multi["lang"]]
+    if not res["sheets"] or res["sheets"][0]["name"] != pre + "Legend":
+        return [(f"the first sheet is {res['sheets'][0]['name'] if res['sheets'] else None!r}, not the legend", {"legend", "legend-missing"})]
+    cells = cellmap(res["sheets"][0])
+    rows = [r for (r, c), (val, f) in cells.items() if c == 0 and val == pre + "Accounting Method"]
+    if len(rows) != 1:
+        return [(f"legend: {len(rows)} cells labelled 'Accounting Method' in column A", {"legend", "legend-layout"})]
+    r = rows[0]
+    sched = multi["sched"]
+    if len(sched) == 1:
+        want_m = sched[0][1].upper()
+    else:
+        parts, old = [], 1970
+        for y, m in sched:
+            parts.append(f"{old}->{y}:{m.upper()}" if y - old > 1 else f"{y}:{m.upper()}")
+            old = y
+        want_m = ", ".join(parts)
+    from harness import impl as _impl
+    want = [want_m,
+            "non-specified" if multi.get("from") is None else str(_impl.date_of_day(multi["from"])),
+            "non-specified" if multi.get("to") is None else str(_impl.date_of_day(multi["to"]))]
+    what = ["accounting method", "from-date filter", "to-date filter"]
+    for k in range(3):
+        val, f = cells.get((r + k, 1), (None, None))
+        if f is not None or val != want[k]:
+            v.append((f"legend: the {what[k]} cell ({r + k},1) holds {val!r} {f!r}, the run used {want[k]!r}", {"legend", "legend-stale"}))
+    return v
 
 
 REF_RE = re.compile(r"^='([^']*)'\.([A-Z])(\d+)$")
@@ -531,7 +566,7 @@ def run(tier, build, replay=None):
     lines, idx = [], []
     for k, ((_, m), res) in enumerate(zip(cases, results)):
         if res.get("stage") in ("computed", "generated"):
-            lines.append(model_line(80, m, fracs_of(res)))
+            lines.append(model_line(84, m, fracs_of(res)))
             idx.append(k)
     mres = dict(zip(idx, core.run_model(lines))) if build.driver_ok else {}
     nontriv, mism, feats, errors, cells_compared = set(), 0, {}, {}, 0
@@ -558,11 +593,11 @@ def run(tier, build, replay=None):
             else:
                 out.violation(f"{name}: the report generator fails on a valid input: {res['err']}: {res.get('msg')}", rep, tags={"generator-error"})
         else:
-            for text, tags in oracle(m, res):
+            for text, tags in oracle(m, res) + legend_oracle(m, res):
                 out.violation(f"{name}: {text}", rep, tags=tags)
             if fs & {"unordered", "gap", "disposal-only-year", "feeless-transfer-only-year"} and "multi-year" in fs:
                 nontriv.add(core.case_hash(m))
-            cells_compared += sum(len(s["cells"]) for s in res["sheets"][1:])
+            cells_compared += sum(len(s["cells"]) for s in res["sheets"])
         if k in mres:
             d = correspond(m, res, mres[k])
             if d:
@@ -575,8 +610,8 @@ def run(tier, build, replay=None):
         "evaluations": len(cases),
         "distinct_nontrivial": len(nontriv),
         "rule": "each evaluation = one tax_report_jp.ods generated in a fresh interpreter from a generated 1-4 asset input (languages en / kl alternate) and read back; "
-                "compared cell by cell (static template cells included) with the report of the Coq model, and judged by an independent oracle against the property text "
-                "(sheet per asset-year, every transaction once with its figures, summary lines dereferenced, opening-balance references dereferenced); "
+                "compared cell by cell (static template cells included, Legend sheet included) with the report of the Coq model, and judged by an independent oracle against the property text "
+                "(sheet per asset-year, every transaction once with its figures, summary lines dereferenced, opening-balance references dereferenced; legend method / date-filter cells); "
                 "non-trivial = some asset spans several years that are unordered across the tables, have a gap, a disposal-only year or a year of fee-less transfers only",
         "samples": [cases[0][1]] if cases else [],
         "traces_validated_against_impl": len(mres),
@@ -591,6 +626,7 @@ def run(tier, build, replay=None):
         "yen values are amount x spot price of the row (the writer ignores exchange-supplied fiat columns); income-typed acquisitions also show a sale of 0 units worth the acquisition; "
         "a donation shows '0 (￥value)'; a transfer that lost nothing on the way has no row (but its year has a sheet)",
         "both -f and -t given: the generator refuses by design (F7, property C16); only one of them: the sheets cover the visible transactions",
-        "the Legend sheet is not examined here",
+        "the Legend sheet (first sheet) is compared cell by cell with Model/JpLegend.v: template texts as labels (non-empty), the method string and the two date-filter cells exactly; "
+        "its prose is not examined.  the schedule is one entry, fifo (the only method the JP country plugin accepts), keyed 1970 or -- every tenth case -- 2015",
     ]
     return out.finish(proofs, build)
